@@ -17,6 +17,8 @@ use vkit::src::{Fallback, Plan, Step};
 /// quiet panic hook that records message + site for the monitors' catch_unwind wrappers
 pub fn init() {
     vkit::util::install_panic_hook();
+    // every log level is taken (and discarded), so that the arguments of the library's log macros are evaluated
+    vkit::util::install_logger();
 }
 
 fn cfg() -> G1Cfg {
